@@ -8,6 +8,8 @@ import Req.Pool.Tls
   → `ok:h1|ok:h2|ok:h3|err:tls|err:other|crash` (`Dispatch.route`).
 * `c12routeu …` same arguments → `Dispatch.routeUnpatched` (the un-patched order; used to tag
   the known Alt-Svc findings precisely).
+* `c12set <goSupportsH3> <setters>` → the protocol settings after a setter sequence
+  (`Dispatch.applySetting` folded from `T()`).
 * `c12cfg <stack> <onlyH1> <host> <issuer> <names> <ops>` → `sni=<n> alpn=<protos> accept=<0|1>
   cert=<id|->`: the configuration stack `<stack>` builds for a new connection after the
   setter sequence `<ops>` (starting from `T()`'s initial config), judged by `acceptsStd`
@@ -153,7 +155,34 @@ def laneCfg : List String → String
     | _, _, _, _, _, _ => "bad-op"
   | _ => "bad-op"
 
+def pSetting : String → Option Setting
+  | "f1" => some .forceH1
+  | "f2" => some .forceH2
+  | "f3" => some .forceH3
+  | "uf" => some .unforce
+  | "e3" => some .enableH3
+  | "d3" => some .disableH3
+  | "eh" => some .enableH2C
+  | "dh" => some .disableH2C
+  | "cl" => some .clone
+  | _ => none
+
+/-- `c12set <supported> <settings>` → `force=… h3=… allow=… dial=…` after the setters, from `T()`
+(`allow=?` once a clone occurred: whether Clone carries `t2.AllowHTTP` is C19's subject). -/
+def laneSet : List String → String
+  | [sup, ss] =>
+    match pBool sup, (if ss == "-" then some [] else (ss.splitOn ",").mapM pSetting) with
+    | some sup, some l =>
+      let c := l.foldl (applySetting sup) initialProto
+      let f := match c.force with | none => "-" | some .h1 => "1" | some .h2 => "2" | some .h3 => "3"
+      let b := fun (x : Bool) => if x then "1" else "0"
+      let allow := if l.contains .clone then "?" else b c.allowHTTP
+      s!"force={f} h3={b c.h3} allow={allow} dial={b c.dialTLS}"
+    | _, _ => "bad-op"
+  | _ => "bad-op"
+
 def lanes : List (String × (List String → String)) := [
+  ("c12set", laneSet),
   ("c12route", laneRoute),
   ("c12routeu", laneRouteU),
   ("c12cfg", laneCfg)
